@@ -68,6 +68,11 @@ def run(ctx):
 
 # ------------------------------------------------------------------------------------------------
 
+# atomic operations that only read the counter / build it, and those that raise it (decided by rule_bp: only in send)
+ATOMIC_READS = {"load", "new", "default", "fmt"}
+ATOMIC_RAISES = {"fetch_add", "store", "swap", "fetch_max"}
+
+
 def is_count_load(t):
     return t[0] == "call" and t[1][1] == "load" and t[2] and t[2][0] == cfield("count")
 
@@ -263,6 +268,24 @@ def rule_dec_call(ctx, M, futname, rule_dec, rule_call):
     if not readys or not all(bi.guarded_by(r[0], rb) for r in readys):
         probs.append("Ready is returned without the closure's future having resolved")
     rd = rule_dec or rule_call
+    if rule_dec is not None:
+        # who else lowers (or rewrites) the in-flight counter: the single fetch_sub above is the only release of a slot in
+        # the module - a second release site (a destructor, a guard, fetch_update / compare_exchange / fetch_min ...) hands
+        # the same slot back twice and lets more than `limit` closure futures exist (seed C13-q)
+        mod = (M.adt_of_type(b.impl_self) or "").split("::")[-2]
+        n_low = 0
+        for x in M.F.bodies:
+            if x.kind in ("Const", "AnonConst") or ("concurrent_stream::%s::" % mod) not in x.def_:
+                continue
+            for s in M.info(x).sites:
+                if s.callee.owner not in ("Atomic", "AtomicUsize") or s.callee.name in ATOMIC_READS or s.callee.name in ATOMIC_RAISES:
+                    continue
+                if x.def_ == b.def_ and subs and len(subs) == 1 and s.where == subs[0].where:
+                    continue
+                n_low += 1
+                probs.append("the in-flight counter is lowered / rewritten (%s) outside the closure future's Ready edge of %s::poll: %s" % (s.callee.name, futname, x.def_))
+        if not probs:
+            ctx.ok(rd, "<crate>", "in-flight counter is lowered only by the one fetch_sub of %s::poll (%d other sites in concurrent_stream::%s)" % (futname, n_low, mod))
     if probs:
         for p in sorted(set(probs)):
             ctx.fail(rd, where, p, site=b.span)
